@@ -98,6 +98,15 @@ func (ex *Exec) send(x *ast.SendStmt) {
 		ex.st.ghost["evNext"] = ex.def("evNext", Ite(isStart, g["evNext"], Term{"(+ " + stage.S + " 1)", SInt}))
 		ex.st.ghost["evOpen"] = ex.def("evOpen", isStart)
 		ex.st.ghost["evCount"] = ex.def("evCount", Term{"(+ " + g["evCount"].S + " 1)", SInt})
+		// time stamps: the event carries a clock reading taken before now and not older than the previous event's
+		if f := val.Sort.FieldByName("Time"); f != nil {
+			tv := ex.U.FieldGet(val, f)
+			tk := ex.U.DeclareFun("timeTick", []*Sort{tv.Sort}, SInt)
+			tick := Term{app(tk.Name, tv), SInt}
+			ex.ghostAssert("event-time-order", And(Term{"(<= " + g["evLastTime"].S + " " + tick.S + ")", SBool}, Term{"(< " + tick.S + " " + g["evClock"].S + ")", SBool}), x,
+				"the event's time stamp is a clock reading already taken and not earlier than the previous event's")
+			ex.st.ghost["evLastTime"] = ex.def("evLastTime", tick)
+		}
 	case "milestones.Milestone":
 		g := ex.st.ghost
 		ex.safe("send-closed", Eq(g["msClosed"], IntLit(0)), x, "send on "+exprString(x.Chan)+" while closed")
